@@ -1,10 +1,12 @@
 import TbbVerif.Core.Proto
 import TbbVerif.Model.C10
+import TbbVerif.Model.C10RD
 
 open TbbVerif
 
 def drivers : List (String × Proto.Driver) := [
-  ("c10", C10.driver)
+  ("c10", C10.driver),
+  ("c10r", C10R.driver)
 ]
 
 def main (args : List String) : IO UInt32 := Proto.mainOf drivers args
